@@ -153,9 +153,9 @@ def build_and_eval(src, envs):
     return M, prop, out
 
 
-def one_expr(ctx, rng, depth):
+def one_expr(ctx, rng, depth, tree=None):
     names = SPECIES + PARAMS + ["t", "volume"]
-    tree = gen_tree(rng, depth, names)
+    tree = tree if tree is not None else gen_tree(rng, depth, names)
     src = tree.src()
     envs = [make_env(rng) for _ in range(4)]
     wants = []
@@ -216,6 +216,49 @@ def one_expr(ctx, rng, depth):
     if not const:
         ctx.nontriv(src)
     ctx.sample({"src": src, "value": wants[0][1]}, cap=5)
+
+
+def operator_positions(ctx, rng):
+    """every operator with `volume` and `t` in each of its argument positions in turn (the other arguments plain
+    identifiers or numbers): the volume and the time reach every operand of every node - systematically, not by the luck of
+    the random trees."""
+    vt = lambda: Node("+", Node("*", Node("id", "volume"), Node("id", "A")), Node("id", "t"))      # volume*A + t  (> 0)
+    plain = [lambda: Node("id", "B_1"), lambda: Node("num", 2), lambda: Node("id", "k_cat")]
+    for kind, arity in (("+", 2), ("-", 2), ("*", 2), ("/", 2), ("^", 2), ("neg", 1), ("exp", 1), ("log", 1), ("abs", 1),
+                        ("Heaviside", 1), ("max", 2), ("max", 3), ("min", 2), ("min", 3)):
+        for pos in range(arity):
+            args = [vt() if i == pos else plain[i % len(plain)]() for i in range(arity)]
+            if kind == "^" and pos == 1:
+                args = [Node("num", 2), Node("/", vt(), Node("num", 4))]        # a bounded exponent
+            if kind == "exp":
+                args = [Node("/", vt(), Node("num", 4))]
+            if kind == "Heaviside":
+                args = [Node("-", vt(), Node("num", 100))]                       # far from the kink
+            if kind == "min":       # the other operands large / small enough for the one under test to decide the value
+                args = [vt() if i == pos else Node("num", 1000) for i in range(arity)]
+            if kind == "max":
+                args = [vt() if i == pos else Node("neg", Node("num", 1000)) for i in range(arity)]
+            tree = Node(kind, *args)
+            # once on its own and once under a min / a product, so that nested nodes pass the volume on as well
+            for wrap in (lambda x: x, lambda x: Node("min", Node("num", 1000), x), lambda x: Node("*", x, Node("id", "volume"))):
+                one_expr(ctx, rng, 0, tree=wrap(tree))
+                ctx.count("operator_position_cases")
+
+
+def minmax_orderings(ctx, rng):
+    """min / max whose operands all depend on the volume, each operand being the deciding one in turn (the symbolic front end
+    may list the operands in any order, so every stored position gets to decide)."""
+    va = lambda c: Node("+", Node("*", Node("id", "volume"), Node("id", "A")), Node("num", c))
+    vb = lambda c: Node("+", Node("*", Node("id", "volume"), Node("id", "B_1")), Node("num", c))
+    vc = lambda c: Node("+", Node("*", Node("id", "volume"), Node("id", "k_cat")), Node("num", c))
+    for kind, far in (("min", 500), ("max", -500)):
+        for deciding in range(3):
+            ops2 = [va(0 if deciding == 0 else far), vb(0 if deciding == 1 else far)]
+            ops3 = ops2 + [vc(0 if deciding == 2 else far)]
+            for tree in ([Node(kind, *ops2)] if deciding < 2 else []) + [Node(kind, *ops3)]:
+                one_expr(ctx, rng, 0, tree=tree)
+                one_expr(ctx, rng, 0, tree=Node("*", tree, Node("id", "t")))
+                ctx.count("minmax_ordering_cases", 2)
 
 
 def malformed(ctx, rng):
@@ -331,6 +374,8 @@ def run(ctx):
     n = 150 if ctx.quick() else 4000
     for i in range(n):
         one_expr(ctx, rng, rng.randint(1, 5))
+    operator_positions(ctx, rng)
+    minmax_orderings(ctx, rng)
     malformed(ctx, rng)
     underscore_alias(ctx)
     growth_law_traces(ctx, rng)
